@@ -25,7 +25,7 @@ META = {
                    "operation with symbolic arguments is compared with an ordered-list reference model and the full "
                    "representation invariant; view operations are consumed under an element budget to decide "
                    "termination. Inductive step => operation histories of any length at these capacities.",
-    "bounds": {"quick": {"capacity": "1..3", "update_pairs": "<=2"}, "thorough": {"capacity": "1..5", "update_pairs": "<=2"}},
+    "bounds": {"quick": {"capacity": "1..4", "update_pairs": "<=2"}, "thorough": {"capacity": "1..7", "update_pairs": "<=2"}},
     "outside_bounds": ["capacities above the bound", "keys whose __hash__ is inconsistent with __eq__",
                        "max_size < 1", "== against mappings with symbolic keys (the eq jobs use concrete distinct keys, "
                                        "symbolic values: Mapping.__eq__ hashes the keys)"],
@@ -41,6 +41,15 @@ META = {
                  ["collections.abc Mapping/MutableMapping mixins (keys, values, items, get, pop, popitem, clear, update, "
                   "setdefault, __contains__, __eq__) executed as they are"],
 }
+
+
+def distinct_first(n, *ks):
+    """the first n keys are pairwise different (the unused ones stay unconstrained)"""
+    for a in range(n):
+        for b in range(a + 1, n):
+            if ks[a] == ks[b]:
+                return False
+    return True
 
 
 def _build(cap, n, ks, vs):
@@ -128,19 +137,17 @@ def _consume(it, budget):
     return out, True
 
 
-def step(k0: int, k1: int, k2: int, k3: int, k4: int, v0: int, v1: int, v2: int, v3: int, v4: int,
-         k: int, v: int, kk: int, vv: int, flag: bool) -> bool:
+def step(k0: int, k1: int, k2: int, k3: int, k4: int, k5: int, k6: int, v0: int, v1: int, v2: int, v3: int, v4: int,
+         v5: int, v6: int, k: int, v: int, kk: int, vv: int, flag: bool) -> bool:
     """
-    pre: k0 != k1 and k0 != k2 and k0 != k3 and k0 != k4
-    pre: k1 != k2 and k1 != k3 and k1 != k4
-    pre: k2 != k3 and k2 != k4 and k3 != k4
+    pre: distinct_first(h.P["n"], k0, k1, k2, k3, k4, k5, k6)
     post: _
     """
     cap = h.P["cap"]
     n = h.P["n"]
     op = h.P["op"]
-    ks = [k0, k1, k2, k3, k4][:n]
-    vs = [v0, v1, v2, v3, v4][:n]
+    ks = [k0, k1, k2, k3, k4, k5, k6][:n]
+    vs = [v0, v1, v2, v3, v4, v5, v6][:n]
     c = _build(cap, n, ks, vs)
     model = list(zip(ks, vs))
     pre = _check(c, model, "build")
@@ -320,7 +327,7 @@ def _check_content_any_order(c, model, tag):
     return _check(c, order, tag)
 
 
-def eq_step(v0: int, v1: int, v2: int, v3: int, v4: int, w: int, pos: int, same: bool) -> bool:
+def eq_step(v0: int, v1: int, v2: int, v3: int, v4: int, v5: int, v6: int, w: int, pos: int, same: bool) -> bool:
     """
     pre: 0 <= pos < max(1, h.P['n'])
     post: _
@@ -331,7 +338,7 @@ def eq_step(v0: int, v1: int, v2: int, v3: int, v4: int, w: int, pos: int, same:
     n = h.P["n"]
     kind = h.P["kind"]
     ks = list(range(n))
-    vs = [v0, v1, v2, v3, v4][:n]
+    vs = [v0, v1, v2, v3, v4, v5, v6][:n]
     c = _build(cap, n, ks, vs)
     ovs = list(vs)
     if not same and n > 0:
@@ -365,7 +372,7 @@ def eq_step(v0: int, v1: int, v2: int, v3: int, v4: int, w: int, pos: int, same:
 
 def jobs(tier):
     T = 90 if tier == "quick" else 600
-    C = 3 if tier == "quick" else 5
+    C = 4 if tier == "quick" else 7
     out = []
     for cap in range(1, C + 1):
         for n in range(0, cap + 1):
